@@ -561,6 +561,10 @@ def rule_prefix_tests_at_boundary(chk, rid, all_stores=False):
                     if ext:
                         cfg = cfg or CFG(fn)
                         ok = any(cfg.can_reach(cfg.node_of(s), cfg.node_of(c)) for s in ext)
+                    # the test sits on the branch where the name is known to end with '/'
+                    cfg = cfg or CFG(fn)
+                    if any(t_.replace('"', "'") == f"{a.id}.endswith('/')" and p_ for _, t_, p_, _ in dominating_literals(cfg, cfg.node_of(c))):
+                        ok = True
                     # every definition of the name in this function is `<expr> + '/'`
                     defs = [s for s in body_walk(fn) if isinstance(s, ast.Assign) and any(U(t) == a.id for t in s.targets)]
                     if defs and all(slashed(d.value) for d in defs) and a.id not in params(fn):
